@@ -1166,6 +1166,37 @@ class Interp(object):
             o.attrs['__base_list__'].extend(self.iterate(args[0]) if args else [])
         return o
 
+    def _find_hook(self, f, qual):
+        """hooks are named by where the checks expect a function ('path.Line.length', 'path.segment_length'); the function may be
+        defined elsewhere (pulled up into a base class, moved to another module and imported back): match by resolution"""
+        if not self.call_hooks:
+            return None
+        recv = f.self_obj if isinstance(f.self_obj, Obj) else None
+        if recv is not None:
+            h = self.call_hooks.get('%s.%s' % (recv.cls.qualname, f.info.name))
+            if h is not None:
+                return h
+        h = self.call_hooks.get(qual)
+        if h is not None:
+            return h
+        cache = self.__dict__.setdefault('_hook_alias', {})
+        for key, h in list(self.call_hooks.items()):
+            if '<locals>' in key or key.count('.') not in (1, 2):
+                continue
+            if key not in cache:
+                try:
+                    target = self.model.func(key)
+                    owner = self.model.cls(key.rsplit('.', 1)[0]) if key.count('.') == 2 else None
+                except Exception:
+                    target = owner = None
+                cache[key] = (target, owner)
+            target, owner = cache[key]
+            if target is not f.info:
+                continue
+            if owner is None or (recv is not None and bm._subclass(self, recv.cls, owner)):
+                return h
+        return None
+
     def call_closure(self, f, args, kwargs):
         qual = f.info.qualname if f.info is not None else None
         if qual is None and isinstance(f.node, ast.FunctionDef):
@@ -1177,7 +1208,7 @@ class Interp(object):
                 if r is not NotImplemented:
                     return r
         if qual is not None:
-            hook = self.call_hooks.get(qual)
+            hook = self._find_hook(f, qual)
             if hook is not None:
                 r = hook(self, ([f.self_obj] if f.self_obj is not None else []) + list(args), kwargs)
                 if r is not NotImplemented:
